@@ -138,17 +138,19 @@ def gilScope (body : Region.Out) : Region.Out :=
   ⟨[.release] ++ body.evs ++ (if body.active then [.acquire] else []), body.exit, false⟩
 
 /-- `try { body } catch (...) { handler; return NULL; }` — the handler runs after unwinding -/
-def tryCatch (body : Region.Out) (handler : List Ev) : Region.Out :=
+def tryCatchRegion (body : Region.Out) (handler : List Ev) : Region.Out :=
   match body.exit with
-  | .thrown => ⟨body.evs ++ handler ++ [.ret], .returned, body.active⟩
+  | .thrown => ⟨body.evs ++ handler, .returned, body.active⟩
   | _ => body
 
-/-- code after a region: runs only when the region was left normally -/
+/-- the rest of the entry point after a region: `rest` runs only when the region was left normally;
+a `return` inside the region returns to the interpreter; an uncaught exception leaves the entry point
+without returning -/
 def andThen (r : Region.Out) (rest : List Ev) : List Ev :=
   match r.exit with
   | .normal => r.evs ++ rest
-  | .returned => r.evs ++ (if r.evs.getLast? = some .ret then [] else [.ret])
-  | .thrown => r.evs      -- uncaught: the exception leaves the entry point (no `ret`)
+  | .returned => r.evs ++ [.ret]
+  | .thrown => r.evs
 
 /-- the three idioms.
  (a) `py_f` validates, then `SAFE_SWITCH_ON_TYPES_OF` = `try { kernel<T>(…) } CATCH_PYTHON_EXCEPTIONS`;
@@ -163,9 +165,9 @@ inductive Idiom where
 def skeleton (i : Idiom) (n : Nat) (wrap : Bool) (o : Outcome) : List Ev :=
   let body := gilScope (kernelBody n wrap o)
   let guarded := match i with
-    | .a => tryCatch body [.interpAccess]
+    | .a => tryCatchRegion body [.interpAccess]
     | .b => body
-    | .c => tryCatch body [.interpAccess]
+    | .c => tryCatchRegion body [.interpAccess]
   .validate :: andThen guarded [.interpAccess, .ret]
 
 /-- the path on which validation fails: `PyErr_SetString(...); return NULL;` before any release -/
